@@ -4,7 +4,7 @@ from ..pat_impl import REG
 
 PROPERTY = "C10"
 LEAN_MODULE = "IsobarV"
-THEOREMS = []
+THEOREMS = ["IsobarV.C10.const_reference", "IsobarV.C10.un_reference"]
 try:
     from .. import pat_reg_ext as _ext
     THEOREMS = list(THEOREMS) + _ext.theorems(PROPERTY)
